@@ -252,5 +252,5 @@ func (tv *UnionView) Change(selector uint8, value View) error {
 	} else {
 		contentNode = value.Backing()
 	}
-	return tv.BackedView.SetBacking(NewPairNode(&selectorNode, contentNode))
+	return tv.BackedView.SetBacking(NewPairNode(contentNode, &selectorNode))
 }
